@@ -157,6 +157,10 @@ pub fn execute(sc: &dyn Scenario, plan: &Plan, env: &Env) -> Rec {
     if mode != 0 {
         rec.twin = Some(swapped_twin(plan, env));
     }
+    if plan.get("alt_mode") != 0 {
+        rec.alt_mode = plan.get("alt_mode") as u8;
+        rec.alt_routes = plan.seed | 1;
+    }
     // a run never sees real entropy or the real clock unless a scenario removes the seams itself
     let prev_e = kernel::seams::set_entropy(Some(Xo::derive(plan.seed, &[0xBA5E])));
     let prev_c = kernel::seams::clock_ns();
@@ -187,6 +191,26 @@ fn swapped_twin(plan: &Plan, env: &Env) -> kernel::rec::Twin {
         _ => (base.cur, "C18", "versions-agree", exclude_for_pinned),
     };
     kernel::rec::Twin { lib: twin, primary: env.cur.name(), property: prop, invariant: inv, exclude: excl }
+}
+
+/// Everything a class adds to a generated plan: the twin arrangement, and — for runs of the tree under test alone —
+/// whether this run's parties are built on the library's alternative public routes (6 in 10 runs: struct-level methods
+/// only; 3 in 10: a seed-drawn half of the calls; 1 in 10: every call that has an alternative route).
+pub fn finish_plan(c: &ClassSpec, plan: &mut Plan) {
+    if c.twin_mode != 0 {
+        plan.set("twin_mode", c.twin_mode as i64);
+    }
+    if plan.property != "C20" && !plan.cfg.contains_key("alt_mode") {
+        let mut x = Xo::derive(plan.seed, &[0xA17E]);
+        let mode = match x.below(10) {
+            0..=5 => 0,
+            6..=8 => 1,
+            _ => 2,
+        };
+        if mode != 0 {
+            plan.set("alt_mode", mode);
+        }
+    }
 }
 
 pub struct BatchOut {
@@ -249,9 +273,7 @@ pub fn run_batch(property: &str, tier: Tier, base_seed: u64, classes: &[ClassSpe
                         if property == "C17" {
                             let sc = classes[ci].scenario;
                             let mut plan = sc.gen(property, classes[ci].class, job_seed(base_seed, property, ci, idx), idx, tier);
-                            if classes[ci].twin_mode != 0 {
-                                plan.set("twin_mode", classes[ci].twin_mode as i64);
-                            }
+                            finish_plan(&classes[ci], &mut plan);
                             let path = write_replay(&plan, &Violation { property: property.into(), invariant: "no-loop".into(), detail: "watchdog: no progress for 120 s".into(), at: 0 }, env.profile, "watchdog");
                             println!("VIOLATION property=C17 replay={}", path);
                             std::process::exit(1);
@@ -290,9 +312,7 @@ pub fn run_batch(property: &str, tier: Tier, base_seed: u64, classes: &[ClassSpe
                     let c = &classes[ci];
                     let seed = job_seed(base_seed, property, ci, i);
                     let mut plan = c.scenario.gen(property, c.class, seed, i, tier);
-                    if c.twin_mode != 0 {
-                        plan.set("twin_mode", c.twin_mode as i64);
-                    }
+                    finish_plan(c, &mut plan);
                     let rec = match std::panic::catch_unwind(std::panic::AssertUnwindSafe(|| execute(c.scenario, &plan, env))) {
                         Ok(r) => r,
                         Err(_) => {
@@ -444,9 +464,7 @@ pub fn triage(property: &str, batch: &BatchOut, classes: &[ClassSpec], env: &Env
                     let (ci, idx) = batch.jobs[j];
                     let c = &classes[ci];
                     let mut p = c.scenario.gen(property, c.class, job_seed(batch.base_seed, property, ci, idx), idx, batch.tier);
-                    if c.twin_mode != 0 {
-                        p.set("twin_mode", c.twin_mode as i64);
-                    }
+                    finish_plan(c, &mut p);
                     p
                 };
                 let mut prelude: Vec<Plan> = s.history.iter().map(|j| gen_job(*j)).collect();
@@ -560,6 +578,13 @@ pub fn summarise(batch: &BatchOut, classes: &[ClassSpec], env: &Env, rep: &Repor
     p.distinct_schedules = sch.len() as u64;
     p.faults = stats.faults.iter().map(|(k, v)| (k.to_string(), *v)).collect();
     p.probes = stats.probes.iter().map(|(k, v)| (k.to_string(), *v)).collect();
+    if let Ok(m) = simtypes::ALT_ROUTES_TAKEN.lock() {
+        // process-wide reach counter (includes the executions spent on shrinking): how often each operation went through
+        // an alternative public route instead of the struct-level method
+        for (k, v) in m.iter() {
+            p.probes.insert(format!("alternative-route-taken:{}", k), *v);
+        }
+    }
     p.lib_calls = stats.lib_calls;
     p.events = stats.events;
     p.wall_s = batch.wall_s;
